@@ -927,11 +927,12 @@ class ImpEqToMacro(Macro):
         # preds, concl = pt.prop.strip_implies()
         concl = Or(*args[:-1], pt.prop)
         assert concl == goal, "%s %s" % (concl, goal)
-        return Thm(concl)
+        discharged = [arg.arg if arg.is_not() else Not(arg) for arg in args[:-1]]
+        return Thm(concl, *(hyp for hyp in pt.hyps if hyp not in discharged))
     
     def get_proof_term(self, args, prevs):
         disjs = []
-        for arg in args:
+        for arg in args[:-1]:
             if arg.is_not():
                 disjs.append(arg.arg)
             else:
